@@ -21,7 +21,7 @@ RULE = ("seeded gas/water nets and heating loops of five classes (plain; + t-onl
 ASSUMPTIONS = ["outage patterns are consistent: an out-of-service junction has only out-of-service branches"]
 CONFIG = {"quick": {"shards": 8, "timeout_s": 600, "cases": 300},
           "thorough": {"shards": 16, "timeout_s": 3000, "cases": 8000}}
-REQUIRED_COUNTERS = ["unsupplied_vs_solver_checks", "unsupplied_sets_nonempty", "component_checks", "edge_set_checks", "edge_set_checks_simple_graph", "edge_set_checks_with_index_list",
+REQUIRED_COUNTERS = ["nets_without_valve_table", "unsupplied_vs_solver_checks", "unsupplied_sets_nonempty", "component_checks", "edge_set_checks", "edge_set_checks_simple_graph", "edge_set_checks_with_index_list",
                      "pi_valve_edge_checks", "closed_pi_valve_checks", "distance_checks", "nets_class_plain", "nets_class_tgrid", "nets_class_loop",
                      "nets_class_fc", "nets_class_pc"]
 CLASSES = ["plain", "tgrid", "loop", "fc", "pc"]
@@ -145,6 +145,12 @@ def run_case(case, ctx):
     spec, rng = make(case)
     obs = Obs()
     obs.count("nets_class_" + case["cls"])
+    if rng.random() < 0.15:
+        # nets that hold only the component tables of the elements created (no default tables)
+        spec["sector"] = "None"
+        obs.count("nets_of_sector_None")
+        if not any(e["kind"] == "valve" for e in spec["elements"]):
+            obs.count("nets_without_valve_table")
     net = netgen.build(spec)
     jname = net.junction["name"].to_dict()
     names = lambda s: {jname[x] for x in s}
